@@ -77,4 +77,7 @@ VARIANTS = [
          edits=[("cotengra/pathfinders/path_compressed_greedy.py", "        self.candidates = []\n        self.ssapath = []\n        self.hg = get_hypergraph(", "        self.hg = get_hypergraph("),
                 ("cotengra/pathfinders/path_compressed_greedy.py", "        self.gumbel = GumbelBatchedGenerator(seed)\n", "        self.gumbel = GumbelBatchedGenerator(seed)\n        self.candidates = []\n        self.ssapath = []\n")],
          expect=("C20-RESET", "GreedyCompressed")),
+    dict(name="twin: unrelated helper call before the resets", kind="twin",
+         edits=[("cotengra/pathfinders/path_compressed_greedy.py", "    def get_ssa_path(self, inputs, output, size_dict):\n        self.candidates = []",
+                 "    def _note(self, inputs):\n        return len(inputs)\n\n    def get_ssa_path(self, inputs, output, size_dict):\n        n_in = self._note(inputs)\n        self.candidates = []")]),
 ]
